@@ -103,6 +103,12 @@ func (l *VLink) FlowControlIndicator() frame.FlowControlFlag {
 }
 func (l *VLink) IsClosing() bool { return l.closing }
 
+// FromIdx and ToIdx return the node indices of the link's ends.
+func (l *VLink) FromIdx() int { return l.from.Idx }
+
+// ToIdx returns the node index of the far end.
+func (l *VLink) ToIdx() int { return l.to.Idx }
+
 // Close marks the link closing and unregisters it, like LinkBase.Close.
 func (l *VLink) Close(log func()) {
 	if l.closing {
@@ -136,6 +142,9 @@ func (l *VLink) send(f frame.Frame, prio bool) error {
 	if l.Drop != nil && l.Drop(cp) {
 		return nil
 	}
+	if l.mesh.OnLinkSend != nil {
+		l.mesh.OnLinkSend(l, cp)
+	}
 	l.mesh.enqueue(&Packet{From: l.from.Idx, To: l.to.Idx, Data: cp, Priority: prio})
 	return nil
 }
@@ -168,6 +177,10 @@ type Mesh struct {
 	// OnEscalate is called for every frame a node's switch hands to its router
 	// (data = the frame as the router sees it).
 	OnEscalate func(node int, data []byte)
+	// OnLinkSend is called from inside a link's Send, i.e. on the goroutine and at the point of the router code
+	// that is sending (e.g. between two iterations of a forwarding loop): what a concurrent worker of the same
+	// router could do at that moment, the callback may do here.
+	OnLinkSend func(l *VLink, data []byte)
 	// Counters.
 	Panics         []error
 	LostForMargins int
